@@ -86,10 +86,31 @@ def any_term(rng, src, shape, ordered=False, prefix=True):
     return {"k": "for_each"}
 
 
+def late_match(rng, p):
+    """Rewrites the predicate table of a find-like terminal so that the first match comes as late
+    as a single-value predicate allows (random tables almost always match within the first few
+    elements, which never exercises a finder that is several chunks into the source)."""
+    k = p["term"]["k"]
+    if k not in ("find", "any", "all", "find_idx"):
+        return p
+    calls, outs = py_calls(norm(p))
+    if not outs:
+        return p
+    first = {}
+    for i, (key, v) in enumerate(outs):
+        first.setdefault(v, i)
+    v = max(first, key=lambda x: first[x]) if rng.random() < 0.8 else rng.choice(list(first))
+    want = [1 if x == v else 0 for x in range(V)]
+    p["term"]["t"] = [1 - w for w in want] if k == "all" else want
+    return p
+
+
 def with_term(rng, mk, **kw):
     """generate program first (to know src/shape), then attach a terminal built by mk"""
     p = gen_prog(rng, **kw)
     p["term"] = mk(rng, p["src"], shape_of(p))
+    if p["term"]["k"] in ("find", "any", "all", "find_idx") and p["src"] != "inf" and rng.random() < 0.5:
+        late_match(rng, p)
     return norm(p)
 
 
@@ -150,6 +171,8 @@ def lag_jobs(rng, tier, mk_terms, add):
         p = gen_prog(rng, src=src, shape=sh, n=rng.choice([40, 64]), nt=rng.choice([6, 7, 8, 12, None]),
                      cs=rng.choice([("csmin", 1), ("csmin", 1), ("csmin", 2), ("csmin", 3), None]))
         p["term"] = mk_terms[i % len(mk_terms)](rng, src, shape_of(p))
+        if rng.random() < 0.6:
+            late_match(rng, p)
         add(norm(p), "rand")
 
 
